@@ -5,6 +5,7 @@ import sys, os, subprocess, shutil, tempfile, json, glob, re
 env = dict(os.environ, GOFLAGS='-mod=mod', GOPROXY='off', GOSUMDB='off', GOTOOLCHAIN='local')
 src = sys.argv[1]
 only = sys.argv[2:]  # optional ids like C03-s2
+offset = int(os.environ.get('SEED_OFFSET', '0'))  # round 2 of sub-agent seeds: SEED_OFFSET=2 gives -s3 / -s4
 def run(cmd, cwd=None, extra=None, inp=None):
     e = dict(env); e.update(extra or {})
     p = subprocess.run(cmd, cwd=cwd, env=e, capture_output=True, text=True, input=inp)
@@ -15,7 +16,7 @@ for pdir in sorted(glob.glob(os.path.join(src, 'C??'))):
         patch = os.path.join(pdir, 'patch%d.diff' % n)
         if not os.path.exists(patch):
             continue
-        sid = '%s-s%d' % (prop, n)
+        sid = '%s-s%d' % (prop, n + offset)
         if only and sid not in only:
             continue
         tmp = tempfile.mkdtemp(prefix='jenseed.')
@@ -31,7 +32,7 @@ for pdir in sorted(glob.glob(os.path.join(src, 'C??'))):
             rc, out = run(['go', 'test', '-vet=off', '-count=1', './...'], cwd=mut)
             suite_ok = rc == 0
             demos = sorted(glob.glob(os.path.join(pdir, 'demo%d*' % n)))
-            race = 'race' in open(os.path.join(pdir, 'notes%d.md' % n)).read().lower() and prop == 'C09' and n == 2
+            race = 'race' in open(os.path.join(pdir, 'notes%d.md' % n)).read().lower() and prop == 'C09'
             def demo(tree):
                 for d in demos:
                     if os.path.isdir(d):
